@@ -729,21 +729,45 @@ type c09CtlResult struct {
 	TcpCalls [][]string      `json:"tcp_calls"`
 	Cache    []c09CacheEntry `json:"cache"`
 	Settled  []bool          `json:"settled"`
+	SharedMsg   bool         `json:"shared_msg"` // two waiters of a round were handed the same *Msg
 	FreshPacked bool         `json:"fresh_packed"` // an entry had deadlineNano set right after its insertion
 	Closes   map[string]int  `json:"closes"`
 	Panic    string          `json:"panic,omitempty"`
 }
 
+// c09Writer is the client-facing dns.ResponseWriter of the harness.  It records the *Msg it is handed and,
+// when a gate is set, stays inside WriteMsg until the round controller has seen every live client either
+// finished or inside its own WriteMsg; only then does it pack the message (a writer goroutine descheduled
+// between entering WriteMsg and Pack).
 type c09Writer struct {
 	mu   sync.Mutex
-	msgs []*dnsmessage.Msg
+	msgs []*dnsmessage.Msg // decoded from the packed bytes
+	ptrs []*dnsmessage.Msg // the objects handed to WriteMsg
+	gate chan struct{}
 }
+
+//go:noinline
+func c09WriteGate(ch chan struct{}) { <-ch }
 
 func (w *c09Writer) LocalAddr() net.Addr  { return &net.UDPAddr{IP: net.IPv4(127, 0, 0, 1), Port: 53} }
 func (w *c09Writer) RemoteAddr() net.Addr { return &net.UDPAddr{IP: net.IPv4(127, 0, 0, 1), Port: 40000} }
 func (w *c09Writer) WriteMsg(m *dnsmessage.Msg) error {
 	w.mu.Lock()
-	w.msgs = append(w.msgs, m.Copy())
+	w.ptrs = append(w.ptrs, m)
+	w.mu.Unlock()
+	if w.gate != nil {
+		c09WriteGate(w.gate)
+	}
+	packed, err := m.Pack()
+	if err != nil {
+		return err
+	}
+	out := new(dnsmessage.Msg)
+	if err = out.Unpack(packed); err != nil {
+		return err
+	}
+	w.mu.Lock()
+	w.msgs = append(w.msgs, out)
 	w.mu.Unlock()
 	return nil
 }
@@ -820,9 +844,9 @@ func c09ClientMain(ctrl *DnsController, q *dnsmessage.Msg, req *udpRequest, w *c
 	return ctrl.HandleWithResponseWriter_(context.Background(), q, req, w)
 }
 
-// c09Parked reports whether every live client goroutine is blocked in the forwarder gate or in
-// singleflight's WaitGroup (i.e. the round has settled and the gate may be opened).
-func c09Parked(live int) bool {
+// c09Parked reports whether every live client goroutine is blocked in one of the given functions
+// (forwarder gate, singleflight's WaitGroup, the writer gate).
+func c09Parked(live int, markers ...string) bool {
 	buf := make([]byte, 1<<20)
 	n := runtime.Stack(buf, true)
 	parked := 0
@@ -830,8 +854,11 @@ func c09Parked(live int) bool {
 		if !strings.Contains(g, "c09ClientMain") {
 			continue
 		}
-		if strings.Contains(g, "c09Gate") || strings.Contains(g, "sync.(*WaitGroup).Wait") {
-			parked++
+		for _, m := range markers {
+			if strings.Contains(g, m) {
+				parked++
+				break
+			}
 		}
 	}
 	return parked >= live
@@ -909,11 +936,12 @@ func c09RunCtl(cs c09CtlCase) (res c09CtlResult) {
 		mu.Unlock()
 		n := len(round)
 		writers := make([]*c09Writer, n)
+		wgate := make(chan struct{})
 		errs := make([]error, n)
 		var finished atomic.Int32
 		var wg sync.WaitGroup
 		for i, c := range round {
-			writers[i] = &c09Writer{}
+			writers[i] = &c09Writer{gate: wgate}
 			wg.Add(1)
 			go func(i int, c c09Client) {
 				defer wg.Done()
@@ -928,15 +956,34 @@ func c09RunCtl(cs c09CtlCase) (res c09CtlResult) {
 		}
 		settled := false
 		for t := 0; t < 4000; t++ {
-			if c09Parked(n - int(finished.Load())) {
+			if c09Parked(n-int(finished.Load()), "c09Gate", "sync.(*WaitGroup).Wait", "c09WriteGate") {
 				settled = true
 				break
 			}
 			time.Sleep(250 * time.Microsecond)
 		}
-		res.Settled = append(res.Settled, settled)
 		close(g)
+		// second barrier: every client that is going to write is inside WriteMsg before anybody packs
+		settled2 := false
+		for t := 0; t < 8000; t++ {
+			if c09Parked(n-int(finished.Load()), "c09WriteGate") {
+				settled2 = true
+				break
+			}
+			time.Sleep(250 * time.Microsecond)
+		}
+		res.Settled = append(res.Settled, settled && settled2)
+		close(wgate)
 		wg.Wait()
+		seen := map[*dnsmessage.Msg]bool{}
+		for i := range round {
+			if len(writers[i].ptrs) > 0 {
+				if seen[writers[i].ptrs[0]] {
+					res.SharedMsg = true
+				}
+				seen[writers[i].ptrs[0]] = true
+			}
+		}
 		outs := make([]c09Outcome, n)
 		for i := range round {
 			switch {
